@@ -393,6 +393,15 @@ def ve_run(ctx, A, B, kind, cases):
         if why:
             ctx.spec_fail("vertex_enumeration", "returned profile is not a Nash equilibrium: " + why,
                           {"A": A.tolist(), "B": B.tolist(), "NE": [x.tolist(), y.tolist()]})
+    # the points handed to Qhull (shifts, scaling, translation of `_BestResponsePolytope.__init__`)
+    for pl, P in enumerate((B, A)):
+        impl_p = "%s %s" % (fx(brps[pl].trans_recip), fxm(brps[pl].hull.points))
+        cases.append(Case("C05 brp idx=%d r=%d c=%d B=%s" % (pl, P.shape[0], P.shape[1], fxm(P)), impl_p,
+                          nontrivial=True, tag="brp"))
+        if (P.min(axis=0) < 0).any():
+            ctx.count("brp:negative-column-shifted")
+        if ((P.max(axis=0) == P.min(axis=0)) & (P.min(axis=0) <= 0)).any():
+            ctx.count("brp:constant-nonpositive-column")
     check_qhull_assumption(ctx, A, B, brps, kind)
     ctx.count("ve:num-eq=%d" % min(len(NEs), 9))
     ctx.count("ve:vertices", brps[0].num_vertices + brps[1].num_vertices)
@@ -445,6 +454,26 @@ def check_qhull_assumption(ctx, A, B, brps, kind=None):
             ctx.count("ve:qhull-vertex-assumption-%s" % ("holds" if ok else "MISSED"))
             if not ok and "qhull-miss" not in ctx.extra:
                 ctx.extra["qhull-miss"] = {"A": A.tolist(), "B": B.tolist(), "polytope": pl, "labels": [int(k) for k in lab]}
+
+
+def brp_args_cases(ctx, cases):
+    """malformed inputs of `_BestResponsePolytope`: not a Player / a Player of a game that is not a
+    two-player game"""
+    from quantecon.game_theory import Player
+    from quantecon.game_theory.vertex_enumeration import _BestResponsePolytope
+
+    def call(x):
+        try:
+            _BestResponsePolytope(x, idx=0)
+            return "ok"
+        except (TypeError, NotImplementedError) as e:
+            return "ERR:" + type(e).__name__
+    for obj, has, nopp in ((3, 0, 0), ("abc", 0, 0), (None, 0, 0), (np.zeros((2, 2)), 0, 0),
+                           (Player(np.zeros(3)), 1, 0), (Player(np.zeros((2, 2, 2))), 1, 2),
+                           (Player(np.zeros((2, 3, 2, 2))), 1, 3), (Player(np.array([[1., 2.], [3., 0.]])), 1, 1)):
+        out = call(obj)
+        ctx.count("brpargs:" + out)
+        cases.append(Case("C05 brpargs has=%d nopp=%d" % (has, nopp), out, nontrivial=False, tag="brpargs"))
 
 
 def cross_check(ctx, A, B, se, ve):
@@ -1093,6 +1122,7 @@ def run(ctx):
                 cross_check(ctx, A, B, se, ve)
 
     indiff_cases(ctx, cases, ctx.n(600, 6000))
+    brp_args_cases(ctx, cases)
     degenerate_run(ctx, cases, ctx.n(300, 3000))
 
     # solve / mutate / solve histories on one game object
